@@ -45,7 +45,13 @@ def chain(depth, form, stages):
                 out.append("fn l%d() -> f32 { return h%d(); }" % (i, i - 1))
                 out.append("fn r%d() -> f32 { return h%d() * 2.0; }" % (i, i - 1))
                 out.append("fn h%d() -> f32 { return l%d() + r%d(); }" % (i, i, i))
-    if form == "pure_diamond":
+        elif form == "ptr_diamond":
+            # helpers taking a pointer parameter, each level calling the next one twice
+            body = "*p = *p + u.x;" if i == 0 else "h%d(p); h%d(p);" % (i - 1, i - 1)
+            out.append("fn h%d(p: ptr<function, f32>) { %s }" % (i, body))
+    if form == "ptr_diamond":
+        call = ("var acc: f32 = 0.0; h%d(&acc);" % (depth - 1)) if depth else "_ = u.x;"
+    elif form == "pure_diamond":
         call = ("_ = h%d(u.x);" % (depth - 1)) if depth else "_ = u.x;"
     elif form == "split_diamond":
         call = ("_ = h%d() + u.x;" % (depth - 1)) if depth else "_ = u.x;"
@@ -107,13 +113,27 @@ def wide_struct(nmembers, nglobals):
     return "\n".join(out) + "\n"
 
 
+def override_ladder(depth, use):
+    """override tile_i = tile_{i-1} * tile_{i-1} (base 1: nothing overflows); used as a workgroup size / in a body / not at all"""
+    out = ["override tile_0: u32 = 1u;"]
+    for i in range(1, depth + 1):
+        out.append("override tile_%d: u32 = tile_%d * tile_%d;" % (i, i - 1, i - 1))
+    if use == "workgroup_size":
+        out.append("@compute @workgroup_size(tile_%d) fn main() { }" % depth)
+    elif use == "body":
+        out.append("@compute @workgroup_size(1) fn main() { _ = tile_%d; }" % depth)
+    else:
+        out.append("@compute @workgroup_size(1) fn main() { }")
+    return "\n".join(out) + "\n"
+
+
 def mk(wgsl, family, depth):
     return {"wgsl": wgsl, "family": family, "opts": {}, "depth": depth}
 
 
 def stages(rng, tier):
     s1, s2 = [], []
-    forms = ["value", "stmt", "diamond", "diamond_value", "pure_diamond", "split_diamond"]
+    forms = ["value", "stmt", "diamond", "diamond_value", "pure_diamond", "split_diamond", "ptr_diamond"]
     for d in [1, 2, 3, 4, 6, 8, 10, 12, 14, 16]:
         for f in forms:
             s1.append(mk(chain(d, f, rng.choice([["compute"], ["vertex", "fragment"], ["fragment", "fragment", "compute"]])), "chain_" + f, d))
@@ -121,12 +141,18 @@ def stages(rng, tier):
         s1.append(mk(struct_diamond(d, 3), "struct_diamond", d))
     for d in [8, 12, 14]:
         s1.append(mk(struct_tower(d), "struct_tower", d))
+    for d in [4, 8, 16]:
+        for use in ("workgroup_size", "body", "unused"):
+            s1.append(mk(override_ladder(d, use), "override_ladder_" + use, d))
     s1.append(mk(fanout(12, 3, rng), "fanout", 12))
     s1.append(mk(wide_struct(20, 6), "wide_struct", 20))
     deep = [20, 24, 32, 48, 64] if tier != "thorough" else [20, 24, 28, 32, 40, 48, 56, 64, 96, 128]
     for d in deep:
         for f in forms:
             s2.append(mk(chain(d, f, ["vertex", "fragment", "compute"]), "chain_" + f, d))
+    for d in [24, 48, 64]:
+        for use in ("workgroup_size", "body"):
+            s2.append(mk(override_ladder(d, use), "override_ladder_" + use, d))
     for d in [18, 20, 22]:
         s2.append(mk(struct_diamond(d, 4), "struct_diamond", d))
     for d in [18, 22, 26, 28]:
